@@ -1,13 +1,322 @@
-// Package c03 is the harness for property C03 (runs the real kapacitor code, prints op lines).
+// Package c03 is the harness for property C03 (window contents and emission schedule).
+//
+// It runs the REAL kapacitor window code and prints op lines with what the implementation did:
+//
+//   - hook cases (`tw …` / `cw …` header): one group's window receiver, created by the real
+//     WindowNode.newWindow through the `verif` hook VerifNewWindow, is driven message by message
+//     (`p <t> <id>` point, `b <t>` barrier). Observation per message:
+//     `<out> <start> <stop> <size> <len> <cap> <nextEmit> <aux>` where <out> is `-` (nothing emitted),
+//     `<tmax>:<id>,<id>,…` (`<tmax>:-` for an empty batch) or `panic`, and the integers are the ring
+//     buffer indexes of the real struct after the message.
+//   - task cases (`task tw …` / `task cw …` header): a real stream task
+//     `stream|from().measurement('m').groupBy('g')|window()…@bsink()` on a real TaskMaster receives the
+//     points of several interleaved groups (`w <group> <t> <id>`); `final <group>` observes every batch
+//     the sink below the window got for that group, in order.
+//
+// Times are Unix nanoseconds (time.Unix(0, t).UTC()); ids are carried in the field "id".
 package c03
 
 import (
 	"fmt"
 	"os"
+	"sort"
+	"strconv"
+	"strings"
+	"time"
+
+	imodels "github.com/influxdata/influxdb/models"
+	"github.com/influxdata/kapacitor"
+	"github.com/influxdata/kapacitor/edge"
+	"github.com/influxdata/kapacitor/models"
+
+	"verifharness/kit"
 )
 
-// Run is replaced by the property's harness.
+func atoi(s string) int64 { v, _ := strconv.ParseInt(s, 10, 64); return v }
+
+func stripObs(l string) string {
+	if i := strings.Index(l, " => "); i >= 0 {
+		return l[:i]
+	}
+	return l
+}
+
+// renderBatch renders an emitted batch; `sent` maps id -> time sent (to detect a point whose time was altered).
+func renderBatch(b edge.BufferedBatchMessage, sent map[int64]int64) string {
+	var ids []string
+	for _, bp := range b.Points() {
+		id, ok := bp.Fields()["id"].(int64)
+		switch {
+		case !ok:
+			ids = append(ids, "noid")
+		case sent[id] != bp.Time().UnixNano():
+			ids = append(ids, fmt.Sprintf("%d~%d", id, bp.Time().UnixNano()))
+		default:
+			ids = append(ids, strconv.FormatInt(id, 10))
+		}
+	}
+	s := "-"
+	if len(ids) > 0 {
+		s = strings.Join(ids, ",")
+	}
+	if b.Begin().SizeHint() != len(b.Points()) {
+		s += "!sizehint"
+	}
+	return fmt.Sprintf("%d:%s", b.Begin().Time().UnixNano(), s)
+}
+
+// ---- hook cases ----
+
+func execHook(lines []string) (out []string) {
+	if len(lines) == 0 {
+		return nil
+	}
+	h := strings.Fields(stripObs(lines[0]))
+	out = append(out, strings.Join(h, " "))
+	var period, every time.Duration
+	var align, fill bool
+	var pc, ec int64
+	switch h[0] {
+	case "tw":
+		if len(h) != 5 {
+			return out
+		}
+		period, every, align, fill = time.Duration(atoi(h[1])), time.Duration(atoi(h[2])), h[3] == "1", h[4] == "1"
+	case "cw":
+		if len(h) != 4 {
+			return out
+		}
+		pc, ec, fill = atoi(h[1]), atoi(h[2]), h[3] == "1"
+	default:
+		return out
+	}
+	var w *kapacitor.VerifWindow
+	sent := map[int64]int64{}
+	dead := false
+	for _, raw := range lines[1:] {
+		line := stripObs(raw)
+		t := strings.Fields(line)
+		if len(t) == 0 {
+			continue
+		}
+		if dead {
+			out = append(out, line+" => panic")
+			continue
+		}
+		var pm edge.PointMessage
+		var bm edge.BarrierMessage
+		var first edge.PointMeta
+		switch {
+		case t[0] == "p" && len(t) == 3:
+			sent[atoi(t[2])] = atoi(t[1])
+			pm = edge.NewPointMessage("m", "db", "rp", models.Dimensions{}, models.Fields{"id": atoi(t[2])}, models.Tags{}, time.Unix(0, atoi(t[1])).UTC())
+			first = pm
+		case t[0] == "b" && len(t) == 2:
+			bm = edge.NewBarrierMessage(edge.GroupInfo{}, time.Unix(0, atoi(t[1])).UTC())
+			first = bm
+		default:
+			out = append(out, line)
+			continue
+		}
+		obs := func() (obs string) {
+			defer func() {
+				if r := recover(); r != nil {
+					if os.Getenv("VERIF_LOG") != "" {
+						fmt.Fprintln(os.Stderr, "panic:", r)
+					}
+					obs = "panic"
+					dead = true
+				}
+			}()
+			if w == nil {
+				var err error
+				w, err = kapacitor.VerifNewWindow(first, period, every, align, fill, pc, ec)
+				if err != nil {
+					dead = true
+					return "err"
+				}
+			}
+			var b edge.BufferedBatchMessage
+			var err error
+			if pm != nil {
+				b, err = w.Point(pm)
+			} else {
+				b, err = w.Barrier(bm)
+			}
+			if err != nil {
+				return "err"
+			}
+			o := "-"
+			if b != nil {
+				o = renderBatch(b, sent)
+			}
+			s, e, z, l, c, ne, aux := w.Ring()
+			return fmt.Sprintf("%s %d %d %d %d %d %d %d", o, s, e, z, l, c, ne, aux)
+		}()
+		out = append(out, line+" => "+obs)
+	}
+	return out
+}
+
+// ---- task cases ----
+
+func durLit(ns int64) string { return fmt.Sprintf("%du", ns/1000) }
+
+func execTask(lines []string) (out []string) {
+	h := strings.Fields(stripObs(lines[0]))
+	out = append(out, strings.Join(h, " "))
+	fail := func(what string) []string {
+		for _, raw := range lines[1:] {
+			line := stripObs(raw)
+			if strings.HasPrefix(line, "final ") {
+				line += " => " + what
+			}
+			out = append(out, line)
+		}
+		return out
+	}
+	if len(h) < 2 {
+		return fail("err")
+	}
+	var win string
+	switch {
+	case h[1] == "tw" && len(h) == 6:
+		win = "|window()\n    .period(" + durLit(atoi(h[2])) + ")"
+		if atoi(h[3]) != 0 {
+			win += "\n    .every(" + durLit(atoi(h[3])) + ")"
+		}
+		if h[4] == "1" {
+			win += "\n    .align()"
+		}
+		if h[5] == "1" {
+			win += "\n    .fillPeriod()"
+		}
+	case h[1] == "cw" && len(h) == 5:
+		win = fmt.Sprintf("|window()\n    .periodCount(%d)\n    .everyCount(%d)", atoi(h[2]), atoi(h[3]))
+		if h[4] == "1" {
+			win += "\n    .fillPeriod()"
+		}
+	default:
+		return fail("err")
+	}
+	script := "stream\n  |from()\n    .measurement('m')\n    .groupBy('g')\n  " + win + "\n  @bsink()\n"
+	tm, err := kit.NewTM(kit.TMOpts{})
+	if err != nil {
+		return fail("err")
+	}
+	defer tm.Close()
+	et, err := tm.StartStream("c03", script, []kapacitor.DBRP{{Database: "db", RetentionPolicy: "rp"}})
+	if err != nil {
+		if os.Getenv("VERIF_LOG") != "" {
+			fmt.Fprintln(os.Stderr, "task:", err, "\n", script)
+		}
+		return fail("err")
+	}
+	sent := map[int64]int64{}
+	for _, raw := range lines[1:] {
+		t := strings.Fields(stripObs(raw))
+		if len(t) == 4 && t[0] == "w" {
+			g, _ := kit.Unesc(t[1])
+			sent[atoi(t[3])] = atoi(t[2])
+			pt, err := imodels.NewPoint("m", imodels.NewTags(map[string]string{"g": g}), imodels.Fields{"id": atoi(t[3])}, time.Unix(0, atoi(t[2])).UTC())
+			if err != nil {
+				return fail("err")
+			}
+			if err := tm.TM.WritePoints("db", "rp", imodels.ConsistencyLevelAll, []imodels.Point{pt}); err != nil {
+				return fail("err")
+			}
+		}
+	}
+	tm.TM.Drain()
+	done := make(chan error, 1)
+	go func() { done <- et.Wait() }()
+	select {
+	case err := <-done:
+		if err != nil {
+			return fail("taskerr")
+		}
+	case <-time.After(60 * time.Second):
+		return fail("timeout")
+	}
+	byGroup := map[string][]string{}
+	var keys []string
+	for _, k := range tm.Rec.Keys() {
+		if strings.HasPrefix(k, "c03/") {
+			keys = append(keys, k)
+		}
+	}
+	sort.Strings(keys)
+	for _, k := range keys {
+		for _, m := range tm.Rec.Get(k) {
+			if b, ok := m.(edge.BufferedBatchMessage); ok {
+				g := b.Begin().Tags()["g"]
+				byGroup[g] = append(byGroup[g], renderBatch(b, sent))
+			} else {
+				byGroup[""] = append(byGroup[""], "nonbatch")
+			}
+		}
+	}
+	for _, raw := range lines[1:] {
+		line := stripObs(raw)
+		t := strings.Fields(line)
+		if len(t) == 2 && t[0] == "final" {
+			g, _ := kit.Unesc(t[1])
+			if bs := byGroup[g]; len(bs) > 0 {
+				line += " => " + strings.Join(bs, " ")
+			} else {
+				line += " => none"
+			}
+		}
+		out = append(out, line)
+	}
+	return out
+}
+
+func execCase(lines []string) []string {
+	if len(lines) == 0 {
+		return nil
+	}
+	if strings.HasPrefix(lines[0], "task ") {
+		return execTask(lines)
+	}
+	return execHook(lines)
+}
+
+func emit(out *kit.Out, id string, lines []string) {
+	out.Line("case", id)
+	for _, l := range lines {
+		out.Line(l)
+	}
+	out.Line("end")
+	out.Flush()
+}
+
+// Run: `vh-c03 -seed S -n N [-tier thorough]` generates; `vh-c03 -ops file` re-executes the cases of a file.
 func Run(args []string) int {
-	fmt.Fprintln(os.Stderr, "c03: harness not implemented yet")
-	return 3
+	f := kit.ParseFlags(args)
+	out := kit.NewOut()
+	defer out.Flush()
+	if f.Ops != "" {
+		lines, err := kit.ReadLines(f.Ops)
+		if err != nil {
+			fmt.Fprintln(os.Stderr, err)
+			return 2
+		}
+		var cur []string
+		id := ""
+		for _, l := range lines {
+			t := strings.Fields(l)
+			switch {
+			case len(t) == 2 && t[0] == "case":
+				id, cur = t[1], nil
+			case len(t) == 1 && t[0] == "end":
+				emit(out, id, execCase(cur))
+			default:
+				cur = append(cur, l)
+			}
+		}
+		return 0
+	}
+	generate(out, f)
+	return 0
 }
